@@ -105,6 +105,17 @@ Proof.
   rewrite Forall_forall in Hall. exact (Hall None Hin eq_refl).
 Qed.
 
+Lemma onth_pad n v i : onth (pad n v) i = onth v i.
+Proof.
+  unfold onth, pad. destruct (lt_dec i (length v)) as [Hlt|Hge].
+  - rewrite nth_error_app1 by exact Hlt. reflexivity.
+  - rewrite nth_error_app2 by lia. rewrite (proj2 (nth_error_None v i)) by lia.
+    assert (H : forall k, nth_error (repeat (@None Q) (n - length v)) k = None \/ nth_error (repeat (@None Q) (n - length v)) k = Some None).
+    { intros k. destruct (nth_error (repeat (@None Q) (n - length v)) k) as [x|] eqn:E; [right|left; reflexivity].
+      apply nth_error_In in E. apply repeat_spec in E. subst x. reflexivity. }
+    destruct (H (i - length v)) as [E|E]; unfold oq in *; rewrite E; reflexivity.
+Qed.
+
 Section Proofs.
   Variable pos : Q -> V3.
 
@@ -209,27 +220,435 @@ Section Proofs.
       exists (index_of i idx). simpl. split; [|split].
       + rewrite pick_nth by exact Ridx. rewrite (index_of_nth idx i Ii). reflexivity.
       + intros dv' H. inversion H; subst dv'. eexists. split; [reflexivity|].
-        unfold onth. rewrite pick_nth by (rewrite Ldv; exact Ridx). rewrite (index_of_nth idx i Ii).
-        unfold dv, pad. destruct (lt_dec i (length dv0)) as [Hlt|Hge].
-        * rewrite nth_error_app1 by exact Hlt. reflexivity.
-        * rewrite nth_error_app2 by lia.
-          assert (Hn : nth_error dv0 i = None) by (apply nth_error_None; lia). rewrite Hn.
-          destruct (nth_error (repeat None (n - length dv0)) (i - length dv0)) as [x|] eqn:E; [|reflexivity].
-          apply nth_error_In in E. apply repeat_spec in E. subst x. reflexivity.
+        rewrite <- (onth_pad n dv0 i). fold dv.
+        unfold onth. rewrite pick_nth by (rewrite Ldv; exact Ridx). rewrite (index_of_nth idx i Ii). reflexivity.
       + intros c name vals H.
         exists (pick (pad n vals) idx). split.
         * apply map_nth_error with (f := fun '(k, v) => (k, pick (pad n v) idx)) in H. exact H.
-        * unfold onth. destruct (le_lt_dec (length vals) n) as [Hle|Hgt].
-          -- rewrite pick_nth by (rewrite pad_length by exact Hle; exact Ridx). rewrite (index_of_nth idx i Ii).
-             unfold pad. destruct (lt_dec i (length vals)) as [Hlt|Hge].
-             ++ rewrite nth_error_app1 by exact Hlt. reflexivity.
-             ++ rewrite nth_error_app2 by lia.
-                assert (Hn : nth_error vals i = None) by (apply nth_error_None; lia). rewrite Hn.
-                destruct (nth_error (repeat None (n - length vals)) (i - length vals)) as [x|] eqn:E; [|reflexivity].
-                apply nth_error_In in E. apply repeat_spec in E. subst x. reflexivity.
+        * rewrite <- (onth_pad n vals i). destruct (le_lt_dec (length vals) n) as [Hle|Hgt].
+          -- unfold onth. rewrite pick_nth by (rewrite pad_length by exact Hle; exact Ridx). rewrite (index_of_nth idx i Ii).
+             reflexivity.
           -- (* a child longer than the vertex array: padding adds nothing *)
              assert (Ep : pad n vals = vals) by (unfold pad; replace (n - length vals) with 0 by lia; apply app_nil_r).
-             rewrite Ep. rewrite pick_nth by (eapply Forall_impl; [|exact Ridx]; simpl; intros; unfold n in *; lia).
+             rewrite Ep. unfold onth. rewrite pick_nth by (eapply Forall_impl; [|exact Ridx]; simpl; intros; unfold n in *; lia).
              rewrite (index_of_nth idx i Ii). reflexivity.
   Qed.
+
+  (* ---------------- validate_depth_data ---------------- *)
+  Lemma nth_error_app_keep {A} (l x : list A) a v : nth_error l a = Some v -> nth_error (l ++ x) a = Some v.
+  Proof. intros H. rewrite nth_error_app1; [exact H|]. apply nth_error_Some. congruence. Qed.
+
+  Lemma cells_join_extend h verts' cells ft cd dep vd :
+    cells_join h -> (forall a v, nth_error (h_verts h) a = Some v -> nth_error verts' a = Some v) ->
+    cells = h_cells h -> ft = h_ft h ->
+    cells_join {| h_verts := verts'; h_depth := dep; h_vdata := vd; h_cells := cells; h_ft := ft; h_cdata := cd |}.
+  Proof.
+    intros Hc Hext -> ->. unfold cells_join in *. simpl. destruct (h_ft h) as [[froms tos]|]; [|exact Hc].
+    destruct Hc as [Lf [Lt Hj]]. split; [exact Lf|]. split; [exact Lt|].
+    intros c a b f t Hcell Hf Ht. destruct (Hj c a b f t Hcell Hf Ht) as [[u [Hu Ha]] [w [Hw Hb]]].
+    split; [exists u|exists w]; split; auto.
+  Qed.
+
+  Lemma appended_depth_at (verts : list V3) (dv : list oq) (new : list Q) i d :
+    length dv = length verts ->
+    (forall j e, nth_error dv j = Some (Some e) -> nth_error verts j = Some (pos e)) ->
+    nth_error (dv ++ map (@Some Q) new) i = Some (Some d) ->
+    nth_error (verts ++ map pos new) i = Some (pos d).
+  Proof.
+    intros L Hold H. destruct (lt_dec i (length dv)) as [Hlt|Hge].
+    - rewrite nth_error_app1 in H by exact Hlt. apply nth_error_app_keep. apply Hold. exact H.
+    - rewrite nth_error_app2 in H by lia. rewrite nth_error_app2 by lia. rewrite <- L.
+      apply nth_error_map_inv in H. destruct H as [e [He E]]. inversion E; subst e.
+      apply map_nth_error. exact He.
+  Qed.
+
+  Lemma add_depth_inv h name depth values tol : inv h -> depth <> [] -> inv_weak (add_depth pos h name depth values tol).
+  Proof.
+    intros [Hv [Hc Hl]] Hne. unfold add_depth. destruct (h_depth h) as [dv|] eqn:Ed.
+    - destruct (Hl dv eq_refl) as [L1 L2]. split; [|split].
+      + intros dv' i d H Hi. simpl in H. inversion H; subst dv'. simpl.
+        apply appended_depth_at with (dv := dv); [exact L2| |exact Hi].
+        intros j e Hj. apply (Hv dv j e Ed Hj).
+      + apply cells_join_extend with (h := h); try reflexivity; [exact Hc|]. intros a v Ha. apply nth_error_app_keep. exact Ha.
+      + intros dv' H. simpl in H. inversion H; subst dv'. simpl. rewrite !app_length, !map_length. lia.
+    - split; [|split].
+      + intros dv' i d H Hi. simpl in H. inversion H; subst dv'. simpl.
+        apply appended_depth_at with (dv := repeat None (length (h_verts h))); [apply repeat_length| |exact Hi].
+        intros j e Hj. apply nth_error_In in Hj. apply repeat_spec in Hj. discriminate.
+      + apply cells_join_extend with (h := h); try reflexivity; [exact Hc|]. intros a v Ha. apply nth_error_app_keep. exact Ha.
+      + intros dv' H. simpl in H. inversion H; subst dv'. simpl. rewrite !app_length, !map_length, repeat_length.
+        destruct depth; [contradiction|simpl; lia].
+  Qed.
+
+  (* ---------------- validate_interval_data ---------------- *)
+  Lemma insert_uq_has x l : exists u, In u (insert_uq x l) /\ (u == x)%Q.
+  Proof.
+    induction l as [|y r IH]; simpl; [exists x; split; [left; reflexivity|reflexivity]|].
+    destruct (Qltb x y); [exists x; split; [left; reflexivity|reflexivity]|].
+    destruct (Qeq_bool x y) eqn:E.
+    - apply Qeq_bool_iff in E. exists y. split; [left; reflexivity|symmetry; exact E].
+    - destruct IH as [u [Hu He]]. exists u. split; [right; exact Hu|exact He].
+  Qed.
+
+  Lemma insert_uq_keeps x l u : In u l -> In u (insert_uq x l).
+  Proof.
+    induction l as [|y r IH]; intros H; [contradiction|]. simpl.
+    destruct (Qltb x y); [right; exact H|]. destruct (Qeq_bool x y); [exact H|].
+    destruct H as [->|H]; [left; reflexivity|right; apply IH; exact H].
+  Qed.
+
+  Lemma uniqQ_has : forall l x, In x l -> exists u, In u (uniqQ l) /\ (u == x)%Q.
+  Proof.
+    induction l as [|y r IH]; intros x H; [contradiction|]. simpl.
+    destruct H as [->|H]; [apply insert_uq_has|].
+    destruct (IH x H) as [u [Hu He]]. exists u. split; [apply insert_uq_keeps; exact Hu|exact He].
+  Qed.
+
+  Lemma find_q_spec : forall l x, (exists u, In u l /\ (u == x)%Q) ->
+    exists u, nth_error l (find_q x l) = Some u /\ (u == x)%Q.
+  Proof.
+    induction l as [|y r IH]; intros x [u [Hu He]]; [contradiction|]. simpl.
+    destruct (Qeq_bool x y) eqn:E.
+    - apply Qeq_bool_iff in E. exists y. split; [reflexivity|symmetry; exact E].
+    - destruct Hu as [->|Hu].
+      + assert (Hxy : Qeq_bool x u = true) by (apply Qeq_bool_iff; symmetry; exact He). congruence.
+      + simpl. apply IH. exists u. split; assumption.
+  Qed.
+
+  Lemma pair_up_flat g : forall fts : list (Q * Q),
+    pair_up (map g (flatten_ft fts)) = map (fun '(f, t) => (g f, g t)) fts.
+  Proof. induction fts as [|[f t] r IH]; [reflexivity|]. simpl. rewrite IH. reflexivity. Qed.
+
+  Lemma flatten_In (fts : list (Q * Q)) f t : In (f, t) fts -> In f (flatten_ft fts) /\ In t (flatten_ft fts).
+  Proof.
+    induction fts as [|[f0 t0] r IH]; intros H; [contradiction|]. simpl.
+    destruct H as [E|H]; [inversion E; subst; auto|]. destruct (IH H) as [A B]. auto.
+  Qed.
+
+  (* the new cells of an interval call join (depths equal to) their from / to *)
+  Lemma new_cells_join (verts : list V3) (new_fts : list (Q * Q)) c a b f t :
+    let flat := flatten_ft new_fts in
+    let uni := uniqQ flat in
+    let nv := length verts in
+    nth_error (pair_up (map (fun x => nv + find_q x uni) flat)) c = Some (a, b) ->
+    nth_error (map fst new_fts) c = Some f -> nth_error (map snd new_fts) c = Some t ->
+    (exists u, (u == f)%Q /\ nth_error (verts ++ map pos uni) a = Some (pos u))
+    /\ (exists u, (u == t)%Q /\ nth_error (verts ++ map pos uni) b = Some (pos u)).
+  Proof.
+    intros flat uni nv Hc Hf Ht. unfold flat in Hc. rewrite pair_up_flat in Hc.
+    apply nth_error_map_inv in Hc. destruct Hc as [[f0 t0] [Hft E]]. inversion E; subst a b. clear E.
+    apply nth_error_map_inv in Hf. destruct Hf as [[f1 t1] [Hft1 E]]. simpl in E. subst f.
+    rewrite Hft in Hft1. injection Hft1 as E1 E2. subst f1 t1.
+    apply nth_error_map_inv in Ht. destruct Ht as [[f2 t2] [Hft2 E]]. simpl in E. subst t.
+    rewrite Hft in Hft2. injection Hft2 as E1 E2. subst f2 t2.
+    destruct (flatten_In new_fts f0 t0 (nth_error_In _ _ Hft)) as [If It].
+    destruct (find_q_spec uni f0 (uniqQ_has flat f0 If)) as [u [Hu Eu]].
+    destruct (find_q_spec uni t0 (uniqQ_has flat t0 It)) as [w [Hw Ew]].
+    split.
+    - exists u. split; [exact Eu|]. rewrite nth_error_app2 by (unfold nv; lia).
+      replace (nv + find_q f0 uni - length verts) with (find_q f0 uni) by (unfold nv; lia). apply map_nth_error. exact Hu.
+    - exists w. split; [exact Ew|]. rewrite nth_error_app2 by (unfold nv; lia).
+      replace (nv + find_q t0 uni - length verts) with (find_q t0 uni) by (unfold nv; lia). apply map_nth_error. exact Hw.
+  Qed.
+
+  Lemma pair_up_length g (fts : list (Q * Q)) : length (pair_up (map g (flatten_ft fts))) = length fts.
+  Proof. rewrite pair_up_flat. apply map_length. Qed.
+
+  Lemma add_interval_inv h name fts values tol : inv h -> inv_weak (add_interval pos h name fts values tol).
+  Proof.
+    intros [Hv [Hc Hl]]. unfold add_interval. destruct (h_ft h) as [[froms tos]|] eqn:Eft.
+    - (* later interval call *)
+      set (cell_map := flat_map _ _). set (new_fts := unmatched cell_map fts).
+      split; [|split].
+      + intros dv i d H Hi. simpl in H |- *. apply nth_error_app_keep. apply (Hv dv i d H Hi).
+      + unfold cells_join in *. rewrite Eft in Hc. simpl. destruct Hc as [Lf [Lt Hj]].
+        rewrite !app_length, !map_length, pair_up_length. split; [lia|]. split; [lia|].
+        intros c a b f t Hcell Hf Ht.
+        destruct (lt_dec c (length (h_cells h))) as [Hlt|Hge].
+        * rewrite nth_error_app1 in Hcell by exact Hlt.
+          rewrite nth_error_app1 in Hf by lia. rewrite nth_error_app1 in Ht by lia.
+          destruct (Hj c a b f t Hcell Hf Ht) as [[u [Hu Ha]] [w [Hw Hb]]].
+          split; [exists u|exists w]; (split; [assumption|apply nth_error_app_keep; assumption]).
+        * rewrite nth_error_app2 in Hcell by lia.
+          rewrite nth_error_app2 in Hf by lia. rewrite nth_error_app2 in Ht by lia.
+          rewrite Lf in Hf. rewrite Lt in Ht.
+          exact (new_cells_join (h_verts h) new_fts _ a b f t Hcell Hf Ht).
+      + intros dv H. simpl in H |- *. destruct (Hl dv H) as [L1 L2]. rewrite app_length. lia.
+    - (* first interval call *)
+      split; [|split].
+      + intros dv i d H Hi. simpl in H |- *. apply nth_error_app_keep. apply (Hv dv i d H Hi).
+      + unfold cells_join. simpl. rewrite !map_length, pair_up_length. split; [reflexivity|]. split; [reflexivity|].
+        intros c a b f t Hcell Hf Ht. exact (new_cells_join (h_verts h) fts c a b f t Hcell Hf Ht).
+      + intros dv H. simpl in H |- *. destruct (Hl dv H) as [L1 L2]. rewrite app_length. lia.
+  Qed.
+
+  (* ---------------- all histories ---------------- *)
+  Definition op_ok (op : hop) : Prop :=
+    match op with AddDepth _ depth _ _ => depth <> [] | AddInterval _ _ _ _ => True end.
+
+  Lemma hstep_inv h op : inv h -> op_ok op -> inv (hstep pos h op).
+  Proof.
+    intros H Hop. destruct op as [k d v tol|k ft v tol]; simpl.
+    - apply sort_depths_inv. apply add_depth_inv; assumption.
+    - apply sort_depths_inv. apply add_interval_inv; assumption.
+  Qed.
+
+  Lemma hrun_inv : forall ops h, inv h -> Forall op_ok ops -> inv (hrun pos h ops).
+  Proof.
+    induction ops as [|op r IH]; intros h H Hops; [exact H|].
+    inversion Hops as [|? ? Hop Hr]; subst. simpl. apply IH; [apply hstep_inv; assumption|exact Hr].
+  Qed.
+
+  (* ---------------- values stay attached ---------------- *)
+  (* value v of vertex child [name] is attached to a vertex whose DEPTH is within tol of d *)
+  Definition attached (h : hole) (name : nat) (d v tol : Q) : Prop :=
+    exists i dv vals dd, h_depth h = Some dv /\ onth dv i = Some dd /\ close dd d tol = true
+      /\ In (name, vals) (h_vdata h) /\ onth vals i = Some v /\ i < length (h_verts h).
+
+  Lemma onth_app_some (l x : list oq) i a : onth l i = Some a -> onth (l ++ x) i = Some a.
+  Proof.
+    unfold onth. intros H. destruct (nth_error l i) as [y|] eqn:E; [|discriminate].
+    rewrite (nth_error_app_keep l x i y E). exact H.
+  Qed.
+
+  Lemma pad_all_In n (d : list (nat * list oq)) name vals : In (name, vals) d -> In (name, pad n vals) (pad_all n d).
+  Proof.
+    intros H. unfold pad_all. apply in_map_iff. exists (name, vals). split; [reflexivity|exact H].
+  Qed.
+
+  Lemma attached_sort h name d v tol : inv_weak h -> attached h name d v tol -> attached (sort_depths h) name d v tol.
+  Proof.
+    intros Hw [i [dv [vals [dd [Hd [Hi [Hc [Hin [Hv Hlt]]]]]]]]].
+    destruct (sort_depths_rows h Hw i Hlt) as [k [Hk [Hdep Hdat]]].
+    destruct (Hdep dv Hd) as [dv' [Hd' Ek]].
+    apply In_nth_error in Hin. destruct Hin as [c Hcn].
+    destruct (Hdat c name vals Hcn) as [vals' [Hc' Ev]].
+    exists k, dv', vals', dd. split; [exact Hd'|]. split; [congruence|]. split; [exact Hc|].
+    split; [eapply nth_error_In; exact Hc'|]. split; [congruence|].
+    apply nth_error_Some. rewrite Hk. apply nth_error_Some. exact Hlt.
+  Qed.
+
+  Lemma attached_add_depth h k depth values tol' name d v tol :
+    inv h -> attached h name d v tol -> attached (add_depth pos h k depth values tol') name d v tol.
+  Proof.
+    intros [_ [_ Hl]] [i [dv [vals [dd [Hd [Hi [Hc [Hin [Hv Hlt]]]]]]]]].
+    unfold add_depth. rewrite Hd.
+    exists i. eexists. exists (pad (length (h_verts h ++ map pos (unmatched (match_values dv depth tol') depth))) vals), dd.
+    simpl. split; [reflexivity|]. split; [apply onth_app_some; exact Hi|]. split; [exact Hc|].
+    split; [apply in_or_app; left; apply pad_all_In; exact Hin|]. split; [rewrite onth_pad; exact Hv|].
+    rewrite app_length. lia.
+  Qed.
+
+  Lemma attached_add_interval h k fts values tol' name d v tol :
+    attached h name d v tol -> attached (add_interval pos h k fts values tol') name d v tol.
+  Proof.
+    intros [i [dv [vals [dd [Hd [Hi [Hc [Hin [Hv Hlt]]]]]]]]].
+    unfold add_interval. destruct (h_ft h) as [[froms tos]|]; simpl;
+      (exists i, dv, vals, dd; simpl; repeat split; try assumption; rewrite app_length; lia).
+  Qed.
+
+  (* a value that is attached stays attached through every later add_data call *)
+  Lemma attached_hstep h op name d v tol : inv h -> op_ok op -> attached h name d v tol -> attached (hstep pos h op) name d v tol.
+  Proof.
+    intros Hinv Hop Ha. destruct op as [k dp vl tl|k ft vl tl]; simpl.
+    - apply attached_sort; [apply add_depth_inv; assumption|]. apply attached_add_depth; assumption.
+    - apply attached_sort; [apply add_interval_inv; assumption|]. apply attached_add_interval; assumption.
+  Qed.
+
+  Lemma attached_hrun : forall ops h name d v tol, inv h -> Forall op_ok ops ->
+    attached h name d v tol -> attached (hrun pos h ops) name d v tol.
+  Proof.
+    induction ops as [|op r IH]; intros h name d v tol Hinv Hops Ha; [exact Ha|].
+    inversion Hops as [|? ? Hop Hr]; subst. simpl.
+    apply IH; [apply hstep_inv; assumption|exact Hr|apply attached_hstep; assumption].
+  Qed.
+
+  (* ---------------- one call attaches its values (no collision) ---------------- *)
+  Lemma set_nth_length {A} : forall (l : list A) i v, length (set_nth l i v) = length l.
+  Proof. induction l as [|x r IH]; intros [|i] v; simpl; try reflexivity. rewrite IH. reflexivity. Qed.
+
+  Lemma nth_error_set_nth_same {A} : forall (l : list A) i v, i < length l -> nth_error (set_nth l i v) i = Some v.
+  Proof. induction l as [|x r IH]; intros [|i] v H; simpl in *; try lia; [reflexivity|]. apply IH. lia. Qed.
+
+  Lemma nth_error_set_nth_other {A} : forall (l : list A) i j v, i <> j -> nth_error (set_nth l i v) j = nth_error l j.
+  Proof. induction l as [|x r IH]; intros [|i] [|j] v H; simpl; try reflexivity; try lia. apply IH. lia. Qed.
+
+  Definition assign_step {A} (tail : list A) (h : list A) (p : nat * nat) : list A :=
+    match nth_error tail (snd p) with Some v => set_nth h (fst p) v | None => h end.
+
+  Lemma assign_fold {A} (head : list A) m tail : assign head m tail = fold_left (assign_step tail) m head.
+  Proof. reflexivity. Qed.
+
+  Lemma assign_length {A} : forall m (head tail : list A), length (assign head m tail) = length head.
+  Proof.
+    induction m as [|p r IH]; intros head tail; [reflexivity|]. rewrite assign_fold. simpl. rewrite <- assign_fold, IH.
+    unfold assign_step. destruct (nth_error tail (snd p)); [apply set_nth_length|reflexivity].
+  Qed.
+
+  Lemma assign_untouched {A} : forall m (head tail : list A) i,
+    ~ In i (map fst m) -> nth_error (assign head m tail) i = nth_error head i.
+  Proof.
+    induction m as [|p r IH]; intros head tail i H; [reflexivity|]. rewrite assign_fold. simpl. rewrite <- assign_fold.
+    rewrite IH by (intros Hi; apply H; right; exact Hi).
+    unfold assign_step. destruct (nth_error tail (snd p)); [|reflexivity].
+    apply nth_error_set_nth_other. intros E. apply H. left. exact E.
+  Qed.
+
+  Lemma assign_unique {A} : forall m (head tail : list A) i j v,
+    NoDup (map fst m) -> In (i, j) m -> nth_error tail j = Some v -> i < length head ->
+    nth_error (assign head m tail) i = Some v.
+  Proof.
+    induction m as [|p r IH]; intros head tail i j v Hnd Hin Hv Hi; [contradiction|].
+    simpl in Hnd. inversion Hnd as [|? ? Hnot Hnd']; subst.
+    rewrite assign_fold. simpl. rewrite <- assign_fold. destruct Hin as [->|Hin].
+    - rewrite assign_untouched by exact Hnot. unfold assign_step. simpl. rewrite Hv. apply nth_error_set_nth_same. exact Hi.
+    - apply (IH _ tail i j v Hnd' Hin Hv). unfold assign_step.
+      destruct (nth_error tail (snd p)); [rewrite set_nth_length|]; exact Hi.
+  Qed.
+
+  Lemma in_combine_seq {A} : forall (l : list A) s j b,
+    In (j, b) (combine (seq s (length l)) l) -> s <= j /\ nth_error l (j - s) = Some b.
+  Proof.
+    induction l as [|a r IH]; intros s j b H; [contradiction|]. simpl in H. destruct H as [E|H].
+    - inversion E; subst. split; [lia|]. rewrite Nat.sub_diag. reflexivity.
+    - destruct (IH (S s) j b H) as [H1 H2]. split; [lia|]. replace (j - s) with (S (j - S s)) by lia. exact H2.
+  Qed.
+
+  (* every pair produced by match_values is a genuine collocation *)
+  Lemma match_values_spec vec_a vec_b tol i j :
+    In (i, j) (match_values vec_a vec_b tol) ->
+    exists a b, nth_error vec_a i = Some (Some a) /\ nth_error vec_b j = Some b /\ close a b tol = true.
+  Proof.
+    unfold match_values. intros H. apply in_concat in H. destruct H as [blk [Hblk Hin]].
+    apply in_map_iff in Hblk. destruct Hblk as [[j' b] [Eblk Hjb]]. subst blk.
+    apply in_combine_seq in Hjb. destruct Hjb as [_ Hb]. rewrite Nat.sub_0_r in Hb.
+    apply in_flat_map in Hin. destruct Hin as [c [_ Hc]].
+    destruct (nth_error (pick vec_a (argsort vec_a)) c) as [[a|]|] eqn:Es; try contradiction.
+    destruct (nth_error (argsort vec_a) c) as [i'|] eqn:Ei; try contradiction.
+    destruct (close a b tol) eqn:Ecl; [|contradiction].
+    destruct Hc as [E|[]]. inversion E; subst i' j'.
+    rewrite pick_nth in Es by apply argsort_range. rewrite Ei in Es.
+    exists a, b. split; [exact Es|]. split; [exact Hb|exact Ecl].
+  Qed.
+
+  (* np.delete(tail, mapping[:, 1]) keeps the unmapped entries of two aligned arrays aligned *)
+  Lemma unmatched_aligned_from {A B} (m : list (nat * nat)) : forall (l1 : list A) (l2 : list B) s j x y,
+    length l1 = length l2 -> mapped m (s + j) = false -> nth_error l1 j = Some x -> nth_error l2 j = Some y ->
+    exists p,
+      nth_error (map snd (filter (fun q => negb (mapped m (fst q))) (combine (seq s (length l1)) l1))) p = Some x
+      /\ nth_error (map snd (filter (fun q => negb (mapped m (fst q))) (combine (seq s (length l2)) l2))) p = Some y.
+  Proof.
+    induction l1 as [|a r1 IH]; intros [|b r2] s j x y Hlen Hm H1 H2; try (destruct j; discriminate); try discriminate.
+    simpl in Hlen. simpl combine. simpl filter. simpl fst.
+    destruct j as [|j]; simpl in H1, H2.
+    - inversion H1; inversion H2; subst. rewrite Nat.add_0_r in Hm. rewrite Hm. simpl. exists 0. split; reflexivity.
+    - replace (s + S j) with (S s + j) in Hm by lia.
+      destruct (IH r2 (S s) j x y ltac:(lia) Hm H1 H2) as [p [P1 P2]].
+      destruct (mapped m s); simpl; [exists p|exists (S p)]; split; assumption.
+  Qed.
+
+  Lemma unmatched_aligned {A B} (m : list (nat * nat)) (l1 : list A) (l2 : list B) j x y :
+    length l1 = length l2 -> mapped m j = false -> nth_error l1 j = Some x -> nth_error l2 j = Some y ->
+    exists p, nth_error (unmatched m l1) p = Some x /\ nth_error (unmatched m l2) p = Some y.
+  Proof. intros. unfold unmatched. apply (unmatched_aligned_from m l1 l2 0 j); assumption. Qed.
+
+  Lemma mapped_true_In m j : mapped m j = true -> exists i, In (i, j) m.
+  Proof.
+    unfold mapped. intros H. apply existsb_exists in H. destruct H as [[i j'] [Hin E]]. simpl in E.
+    apply Nat.eqb_eq in E. subst j'. exists i. exact Hin.
+  Qed.
+
+  Lemma close_self d tol : (0 < tol)%Q -> close d d tol = true.
+  Proof.
+    intros H. unfold close. apply Qltb_lt. setoid_replace (d - d)%Q with 0%Q by ring. exact H.
+  Qed.
+
+  Definition no_collision (h : hole) (depth : list Q) (tol : Q) : Prop :=
+    match h_depth h with None => True | Some dv => NoDup (map fst (match_values dv depth tol)) end.
+
+  (* one validate_depth_data call attaches every value to a vertex within tol of its depth, provided no two entries of
+     the call collocate with the same existing vertex *)
+  Lemma add_depth_attached h name depth values tol j d v :
+    inv h -> length values = length depth -> (0 < tol)%Q -> no_collision h depth tol ->
+    nth_error depth j = Some d -> nth_error values j = Some (Some v) ->
+    attached (add_depth pos h name depth values tol) name d v tol.
+  Proof.
+    intros [_ [_ Hl]] Hlen Htol Hnc Hd Hv. unfold add_depth, no_collision in *.
+    destruct (h_depth h) as [dv|] eqn:Ed.
+    - destruct (Hl dv eq_refl) as [L1 L2].
+      set (m := match_values dv depth tol) in *.
+      destruct (mapped m j) eqn:Em.
+      + (* collocated with an existing vertex i *)
+        destruct (mapped_true_In m j Em) as [i Hin].
+        destruct (match_values_spec dv depth tol i j Hin) as [a [b [Ha [Hb Hcl]]]].
+        rewrite Hd in Hb. inversion Hb; subst b.
+        assert (Hi : i < length (h_verts h)) by (rewrite <- L2; apply nth_error_Some; congruence).
+        exists i. eexists. eexists. exists a. simpl. split; [reflexivity|].
+        split; [apply onth_app_some; unfold onth; rewrite Ha; reflexivity|]. split; [exact Hcl|].
+        split; [apply in_or_app; right; left; reflexivity|]. split.
+        * apply onth_app_some.
+          assert (Hi' : i < length (repeat (@None Q) (length (h_verts h)))) by (rewrite repeat_length; exact Hi).
+          pose proof (assign_unique m (repeat (@None Q) (length (h_verts h))) values i j (Some v) Hnc Hin Hv Hi') as E.
+          unfold onth, oq in *. rewrite E. reflexivity.
+        * rewrite app_length. lia.
+      + (* a new vertex *)
+        destruct (unmatched_aligned m depth values j d (Some v) (eq_sym Hlen) Em Hd Hv) as [p [P1 P2]].
+        exists (length (h_verts h) + p). eexists. eexists. exists d. simpl. split; [reflexivity|]. split; [|split; [apply close_self; exact Htol|]].
+        * unfold onth. rewrite nth_error_app2 by lia. rewrite L2. replace (length (h_verts h) + p - length (h_verts h)) with p by lia.
+          pose proof (map_nth_error (@Some Q) p _ P1) as E. unfold oq in *. rewrite E. reflexivity.
+        * split; [apply in_or_app; right; left; reflexivity|]. split.
+          -- unfold onth. rewrite nth_error_app2 by (rewrite assign_length, repeat_length; lia).
+             rewrite assign_length, repeat_length. replace (length (h_verts h) + p - length (h_verts h)) with p by lia.
+             unfold oq in *. rewrite P2. reflexivity.
+          -- rewrite app_length, map_length. assert (p < length (unmatched m depth)) by (apply nth_error_Some; congruence). lia.
+    - (* the first depth call: every entry becomes a vertex *)
+      exists (length (h_verts h) + j). eexists. eexists. exists d. simpl. split; [reflexivity|]. split; [|split; [apply close_self; exact Htol|]].
+      + unfold onth. rewrite nth_error_app2 by (rewrite repeat_length; lia). rewrite repeat_length.
+        replace (length (h_verts h) + j - length (h_verts h)) with j by lia.
+        pose proof (map_nth_error (@Some Q) j _ Hd) as E. unfold oq in *. rewrite E. reflexivity.
+      + split; [apply in_or_app; right; left; reflexivity|]. split.
+        * unfold onth. rewrite nth_error_app2 by (rewrite repeat_length; lia). rewrite repeat_length.
+          replace (length (h_verts h) + j - length (h_verts h)) with j by lia. unfold oq in *. rewrite Hv. reflexivity.
+        * rewrite app_length, map_length. assert (j < length depth) by (apply nth_error_Some; congruence). lia.
+  Qed.
+
+  (* the whole statement for histories: the values of a collision-free call are attached after the call and after
+     every later call *)
+  Lemma values_stay_attached ops name depth values tol j d v later :
+    Forall op_ok ops -> Forall op_ok later -> depth <> [] -> length values = length depth -> (0 < tol)%Q ->
+    no_collision (hrun pos empty_hole ops) depth tol ->
+    nth_error depth j = Some d -> nth_error values j = Some (Some v) ->
+    attached (hrun pos (hstep pos (hrun pos empty_hole ops) (AddDepth name depth values tol)) later) name d v tol.
+  Proof.
+    intros Hops Hlater Hne Hlen Htol Hnc Hd Hv.
+    assert (Hinv : inv (hrun pos empty_hole ops)) by (apply hrun_inv; [apply inv_empty|exact Hops]).
+    apply attached_hrun; [apply hstep_inv; [exact Hinv|exact Hne]|exact Hlater|].
+    simpl. apply attached_sort; [apply add_depth_inv; assumption|].
+    apply add_depth_attached with (j := j); assumption.
+  Qed.
 End Proofs.
+
+(* ---------------- the collision defect ---------------- *)
+Lemma attached_attachedb h name d v tol : attached h name d v tol -> attachedb h name d v tol = true.
+Proof.
+  intros [i [dv [vals [dd [Hd [Hi [Hc [Hin [Hv Hlt]]]]]]]]]. unfold attachedb. rewrite Hd.
+  apply existsb_exists. exists i. split; [apply in_seq; lia|]. rewrite Hi, Hc. simpl.
+  apply existsb_exists. exists (name, vals). split; [exact Hin|]. simpl. rewrite Nat.eqb_refl, Hv. simpl.
+  apply Qeq_bool_iff. reflexivity.
+Qed.
+
+(* existing vertex at 14.5; one call adds 14.5 (value -18) and 14.49609375 (value 18) with the default tolerance 0.01:
+   both collocate with the existing vertex and the value -18 is overwritten *)
+Definition collision_pos (d : Q) : V3 := (0, 0, - d)%Q.
+Definition collision_before : list hop := [AddDepth 0 [29 # 2]%Q [Some 18%Q] (1 # 2)%Q].
+Definition collision_depth : list Q := [85 # 4; 29 # 2; 3711 # 256]%Q.
+Definition collision_values : list oq := [Some 17%Q; Some (-18)%Q; Some 18%Q].
+
+Lemma collision_witness :
+  attachedb (hstep collision_pos (hrun collision_pos empty_hole collision_before)
+                   (AddDepth 1 collision_depth collision_values (1 # 100)%Q)) 1 (29 # 2)%Q (-18)%Q (1 # 100)%Q = false
+  /\ ~ no_collision (hrun collision_pos empty_hole collision_before) collision_depth (1 # 100)%Q.
+Proof.
+  split; [vm_compute; reflexivity|].
+  unfold no_collision. vm_compute. intros H. inversion H as [|? ? Hn _]; subst. apply Hn. left. reflexivity.
+Qed.
